@@ -28,7 +28,7 @@ ASSUMPTIONS = [
     "when one update changes both the unit item and a temperature word only count/exactly-once is checked for that temperature, not the argument values",
 ]
 BUDGET = {
-    "quick": {"workers": 16, "examples": 4800},
+    "quick": {"workers": 16, "examples": 9600},
     "thorough": {"workers": 16, "examples": 80000},
 }
 
